@@ -152,9 +152,13 @@ def partitionAt (sep s : Bytes) : Bytes × Bytes :=
 def rpartitionAt (sep s : Bytes) : Bytes × Bytes :=
   match rsplitOnce sep s with | some (a, b) => (a, b) | none => ([], s)
 
-/-- the class switch of `type(self) is URI and b':' in uri` at the start of `parse` -/
+/-- `uri.partition(b'/')[0]`: what precedes the first slash -/
+def firstSeg (uri : Bytes) : Bytes := match splitOnce [0x2F] uri with | some (a, _) => a | none => uri
+
+/-- the class switch of `type(self) is URI and b':' in uri.partition(b'/')[0]` at the start of `parse`
+    (a colon after the first slash belongs to the path: the F50 repair) -/
 def earlyClass (E : Env) (cls0 : Option (Bytes × Nat)) (uri : Bytes) : Option (Bytes × Nat) :=
-  if cls0.isNone && uri.contains 0x3A then
+  if cls0.isNone && (firstSeg uri).contains 0x3A then
     match splitOnce [0x3A] uri with
     | some (pre, _) => if pre.isEmpty then cls0 else lookupScheme E.schemes (lowerBytes pre)
     | none => cls0
@@ -167,7 +171,7 @@ def cutScheme (uri : Bytes) : Bytes × Bool × Bytes :=
     | none => ([], false, uri)
   let r2 : Bytes × Bool × Bytes :=
     if !r1.2.1 && startsWith r1.2.2 [0x2F, 0x2F] then (r1.1, true, r1.2.2.drop 2) else r1
-  if !r2.2.1 && r2.2.2.contains 0x3A then
+  if !r2.2.1 && (firstSeg r2.2.2).contains 0x3A then
     match splitOnce [0x3A] r2.2.2 with | some (a, b) => (a, false, b) | none => r2
   else r2
 
